@@ -463,10 +463,18 @@ TEMPLATE_SRC = '''
 from pymtl3 import *
 from pymtl3.stdlib.ifcs import RecvIfcRTL, SendIfcRTL
 
+Hdr_{uid} = mk_bitstruct('Hdr_{uid}', {{'a': Bits4, 'b': Bits4}})
+
+class Cfg_{uid}(Interface):
+  def construct(s):
+    s.tag = InPort(Bits8)
+    s.hdr = InPort(Hdr_{uid})
+
 class IfcA_{uid}(Component):
   def construct(s, k=3):
     s.recv = RecvIfcRTL(Bits8)
     s.send = SendIfcRTL(Bits8)
+    s.cfg = Cfg_{uid}()
     s.send.msg //= s.recv.msg
     s.send.en  //= s.recv.en
     s.recv.rdy //= s.send.rdy
@@ -475,11 +483,12 @@ class IfcB_{uid}(Component):
   def construct(s, k=3):
     s.recv = RecvIfcRTL(Bits8)
     s.send = SendIfcRTL(Bits8)
+    s.cfg = Cfg_{uid}()
     s.k = Wire(Bits8)
     s.k //= k
     @update
     def up_b():
-      s.send.msg @= s.recv.msg + s.k
+      s.send.msg @= s.recv.msg + s.k + s.cfg.tag + zext(s.cfg.hdr.b, 8)
       s.send.en  @= s.recv.en
       s.recv.rdy @= s.send.rdy
 
@@ -487,12 +496,17 @@ class IfcC_{uid}(Component):
   def construct(s, k=3):
     s.recv = RecvIfcRTL(Bits8)
     s.send = SendIfcRTL(Bits8)
+    s.cfg = Cfg_{uid}()
     s.inner = IfcA_{uid}()
     s.recv //= s.inner.recv
     s.inner.send //= s.send
+    s.t = Wire(Bits8)
+    @update
+    def up_c():
+      s.t @= s.cfg.tag ^ zext(s.cfg.hdr.a, 8)
 
 class IfcTop_{uid}(Component):
-  def construct(s, classes, params=None):
+  def construct(s, classes, params=None, ties=None):
     s.recv = RecvIfcRTL(Bits8)
     s.send = SendIfcRTL(Bits8)
     # construct-parameter overrides for list elements (exact name or wildcard): a replacement at that
@@ -504,6 +518,19 @@ class IfcTop_{uid}(Component):
     for i in range(len(classes) - 1):
       s.st[i].send //= s.st[i + 1].recv
     s.st[len(classes) - 1].send //= s.send
+    # constants tied by the parent to a port INSIDE an interface of a list element: whole port, a slice,
+    # a struct field (the replacement may never mention that slice / field itself)
+    for i, what, v in (ties or []):
+      if what == "whole":
+        s.st[i].cfg.tag //= v
+      elif what == "slice":
+        s.st[i].cfg.tag[4:8] //= v & 15
+      elif what == "slice2":
+        s.st[i].cfg.tag[0:3] //= v & 7
+      elif what == "field":
+        s.st[i].cfg.hdr.a //= v & 15
+      else:
+        s.st[i].cfg.hdr.b //= v & 15
 
 class ClA_{uid}(Component):
   def construct(s):
@@ -579,8 +606,16 @@ def gen_template_case(R, c):
   if kind == "ifc" and c.random() < 0.5:
     for _ in range(c.randint(1, 2)):
       params.append([c.choice(["top.st[%d].construct" % c.randrange(n), "top.st*.construct"]), c.choice([0, 5, 9])])
+  ties = []
+  if kind == "ifc" and c.random() < 0.6:
+    for i in range(n):
+      opts = c.sample([["slice", "slice2"], ["field"], ["fieldb"]], c.randint(0, 2)) if c.random() < 0.7 else [["whole"]]
+      for grp in opts:
+        for what in grp:
+          if c.random() < 0.8:
+            ties.append([i, what, c.randrange(1, 256)])
   return {"family": "template", "kind": kind, "start": start, "ops": ops, "uid": "k%x" % (R.seed & 0xffffff),
-          "hash_seed": R.sub_seed("hash"), "params": params}
+          "hash_seed": R.sub_seed("hash"), "params": params, "ties": ties}
 
 
 def run_template(case):
@@ -597,7 +632,8 @@ def run_template(case):
   viols = []
   cur = list(case["start"])
   try:
-    mk = (lambda: Top([cls_of(n) for n in cur], case.get("params") or None)) if case["kind"] == "ifc" else \
+    mk = (lambda: Top([cls_of(n) for n in cur], case.get("params") or None, case.get("ties") or None)) \
+         if case["kind"] == "ifc" else \
          (lambda: Top([cls_of(n) for n in cur]))
     top = mk()
     top.elaborate()
